@@ -21,15 +21,22 @@ func corrC15(r *Run) {
 	r.Rule = "teardown placements: terminating event in {peer EOF, read error, read timeout (scripted and by the library's own read deadline), parent-context cancel, " +
 		"Close with answered unbind (response after / before the Write returned / followed at once by an unsolicited PDU nobody receives), Close with unanswered unbind (1 s), " +
 		"keep-alive failure (enquire_link unanswered, then unbind answered or unanswered), keep-alive idle or in flight at peer EOF, a caller's own context} " +
-		"x 0..4 outstanding Submit calls each with its Write held or returned x {no inbound traffic, unsolicited PDUs queued before the event, Watch blocked handing a PDU to an absent consumer}; " +
+		"x 0..4 (and 17, 33, 65) outstanding Submit calls each with its Write held or returned x {no inbound traffic, unsolicited PDUs queued before the event, Watch blocked handing a PDU to an absent consumer}; " +
 		"first the minimised pre-repair witnesses (D27, D28, D28 at EOF, blocked delivery, repeated response); " +
 		"non-trivial = placements with at least one Submit blocked at the event; distinct by event list"
 	ts := pduTypes()
 	c15Witnesses(r)
-	n := r.N(112, 1800)
+	n := r.N(540, 2400)
 	for i := 0; i < n; i++ {
 		i := i
 		confirmed(r, func() { c15Scenario(r, ts, i, c15Terms[i%len(c15Terms)]) })
+	}
+	// many outstanding requests (beyond any plausible request window: 17, 33, 65)
+	manyK := []int{17, 33, 65, 17, 17, 33}
+	manyTerm := []string{"eof", "close-answered", "parent-cancel", "close-answered", "parent-cancel", "eof"}
+	for i, nm := 0, r.N(12, 48); i < nm; i++ {
+		i := i
+		confirmed(r, func() { c15Many(r, ts, i, manyK[i%len(manyK)], manyTerm[i%len(manyTerm)]) })
 	}
 	for i, nt := 0, r.N(1, 6); i < nt; i++ {
 		i := i
@@ -37,7 +44,7 @@ func corrC15(r *Run) {
 		confirmed(r, func() { c15KeepAliveFailure(r, i, i%2 == 0) })
 		confirmed(r, func() { c15ReadDeadline(r, ts, i) })
 	}
-	for i, nk := 0, r.N(8, 60); i < nk; i++ {
+	for i, nk := 0, r.N(16, 80); i < nk; i++ {
 		i := i
 		confirmed(r, func() { c15KeepAliveEOF(r, i, i%2 == 0) })
 	}
@@ -199,6 +206,77 @@ func c15Scenario(r *Run, ts []pduType, idx int, term string) {
 		}
 	}
 	r.Case(fmt.Sprintf("%s#%d %.200s", term, idx, input), w.CaseExpr(connVariant))
+}
+
+// c15Many: k Submits outstanding at once (all blocked in their select); the last one's own context ends: it alone
+// returns; then the terminating event: all return an error, Done() closes, Close completes.
+func c15Many(r *Run, ts []pduType, idx, k int, term string) {
+	rng := r.Rng
+	w := NewWorld(true)
+	defer w.Shutdown()
+	w.StartWatch()
+	var subs []*c15Sub
+	for g := 0; g < k && w.Stuck == ""; g++ {
+		var p interface{} = &pdu.EnquireLink{}
+		if g%5 == 0 {
+			p = genSendable(rng, ts, true, 200)
+		}
+		c := w.Go(g, CallSpec{Kind: "submit", Seq: int32(1000 + 2*g), P: p})[0]
+		s := &c15Sub{c: c, held: true}
+		if g%7 != 3 { // a few stay inside their transport Write
+			if w.Release(c) {
+				s.held = false
+			}
+		}
+		subs = append(subs, s)
+	}
+	label := fmt.Sprintf("%s/outstanding=%d", term, k)
+	last := subs[len(subs)-1]
+	tc := time.Now()
+	w.CancelCtx(last.c)
+	if w.Held(last.c) {
+		w.Release(last.c)
+	}
+	pre := "sched " + w.Script()
+	if w.Stuck == "" {
+		if !w.Returned(last.c) || last.c.Err == nil || last.c.RetAt.Sub(tc) > promptly {
+			r.Fail("submit-outlives-context/many", fmt.Sprintf("with %d requests outstanding a Submit call outlived its own context", k), tail(pre, 600), last.c.Class(), "returns ctx.Err() promptly")
+		}
+		for _, o := range subs[:len(subs)-1] {
+			if w.Returned(o.c) {
+				r.Fail("submit-foreign-context/many", "cancelling one caller's context released another caller", tail(pre, 600), o.c.Class(), "blocked")
+				break
+			}
+		}
+	}
+	t0 := time.Now()
+	var cl *Call
+	switch term {
+	case "eof":
+		w.PeerEnd(io.EOF)
+	case "parent-cancel":
+		w.CancelParent()
+	default:
+		cl = w.Go(5000, CallSpec{Kind: "close", Seq: 9000})[0]
+		w.Release(cl)
+		t0 = time.Now()
+		w.PeerPDU(&pdu.UnbindResp{Header: pdu.Header{Sequence: 9000}})
+	}
+	for _, s := range subs {
+		if s.held && w.Held(s.c) {
+			w.Release(s.c)
+		}
+	}
+	input := "sched " + w.Script()
+	r.Count(input, true, "many/"+label)
+	if runStuck(r, w, input) {
+		return
+	}
+	c15Common(r, w, tail(input, 900), "many-"+term, subs, t0, term != "parent-cancel")
+	if cl != nil && (!w.Returned(cl) || cl.Err != nil || !w.T.IsClosed()) {
+		r.Fail("close-result/many", fmt.Sprintf("Close with %d requests outstanding did not complete its answered unbind", k), tail(input, 900), cl.Class(), "nil, transport closed")
+	}
+	r.Case(fmt.Sprintf("many %s %.120s", label, input), w.CaseExpr(connVariant))
 }
 
 // Close whose unbind goes unanswered: after its one-second timeout Done() is closed and blocked Submits are released.
